@@ -140,11 +140,23 @@ def run(chk: Check):
 
 
 # thirteen sampler classes of a user's own (picklable: module level), so that a calibration can come to know more than ten class names
+_RETURNED: list = []      # class names of the samplers whose sample() returned a batch, in order
+
+
 def _mk_user_classes():
     from black_it.samplers.random_uniform import RandomUniformSampler
     out = []
+    def _sample(self, search_space, existing_points, existing_losses):
+        # ground truth of who produced a batch: every successful sample() is logged; a class may refuse a history that is too short for it (as best-batch does)
+        need = getattr(type(self), "_needs", 0)
+        if len(existing_points) < need:
+            raise ValueError(f"{type(self).__name__} needs at least {need} evaluated points, got {len(existing_points)}")
+        out = RandomUniformSampler.sample(self, search_space, existing_points, existing_losses)
+        _RETURNED.append(type(self).__name__)
+        return out
+
     for k in range(13):
-        cls = type(f"UserSampler{k:02d}", (RandomUniformSampler,), {"__module__": __name__})
+        cls = type(f"UserSampler{k:02d}", (RandomUniformSampler,), {"__module__": __name__, "sample": _sample})
         globals()[cls.__name__] = cls
         out.append(cls)
     return out
@@ -179,10 +191,21 @@ def many_classes(chk: Check, rng):
                     for _ in range(nb):
                         n0 = len(cal_.params_samp)
                         smp = cal_.scheduler.samplers[cal_.current_batch_index % len(cal_.scheduler.samplers)] if hasattr(cal_.scheduler, "samplers") else None
-                        cal_.calibrate(1)
-                        produced.extend([type(smp).__name__] * (len(cal_.params_samp) - n0))
+                        r0 = len(_RETURNED)
+                        try:
+                            cal_.calibrate(1)
+                        except ValueError as e:
+                            if "needs at least" not in str(e):
+                                raise
+                            chk.count("many_classes:scheduled_sampler_refused_the_history")
+                            return            # the scheduled class refused the history: nothing is recorded for it; the line-up is replaced next
+                        returned = _RETURNED[r0:]
+                        # the rows recorded in this batch were produced by the class whose sample() returned last (ground truth, not what the scheduler says)
+                        produced.extend([returned[-1] if returned else type(smp).__name__] * (len(cal_.params_samp) - n0))
                         tables.append(dict(cal_.samplers_id_table))
+                order[1]._needs = 50          # the second class of the first line-up cannot work on a history this short
                 run_batches(cal, 4)
+                order[1]._needs = 0
                 cal.set_samplers(mk(order[4:8])); run_batches(cal, 4)
                 cal.set_samplers(mk(order[8:12])); run_batches(cal, 4)
                 cal = Calibrator.restore_from_checkpoint(folder, model=model)
@@ -196,6 +219,9 @@ def many_classes(chk: Check, rng):
             chk.fail(f"a calibration that comes to know thirteen sampler classes raised {type(e).__name__}: {str(e)[:120]}", case)
             shutil.rmtree(folder, ignore_errors=True)
             continue
+        finally:
+            for c in classes:
+                c._needs = 0
         shutil.rmtree(folder, ignore_errors=True)
         chk.case(["many-classes", it, [c.__name__ for c in order]], True, {"classes": len(final), "samples": len(ids)}); chk.count("calibration_knowing_13_sampler_classes")
         for t_prev, t_next in zip(tables, tables[1:] + [final]):
